@@ -439,6 +439,9 @@ func (x *Exec) evalSpecCall(st *State, e *ast.CallExpr) *Value {
 			}
 			return scalarV(types.Typ[types.Int], x.strLen(v.scalar()))
 		}
+		if _, ok := v.T.Underlying().(*types.Chan); ok && name == "cap" {
+			return scalarV(types.Typ[types.Int], x.b.App("chan.cap", x.idxSort(), v.scalar()))
+		}
 		x.fail("spec: len of %v", v.T)
 		return x.constInt(0)
 	case "all", "exists", "allsel", "allabs":
